@@ -115,3 +115,11 @@ MUTANTS["C11"] = [
     ("index_float_k", "lentil/zernike.py", "    n = int(np.ceil((-1 + np.sqrt(1 + 8*j)) / 2) - 1)", "    n = int(np.ceil((-1 + np.sqrt(np.float32(1 + 8*j))) / 2) - 1)"),
     ("sine_sign_high_order", "lentil/zernike.py", "Z = np.sqrt(2) * np.sqrt(n+1) * R(m, n, rho) * np.sin(m*theta) * mask", "Z = np.sqrt(2) * np.sqrt(n+1) * R(m, n, rho) * np.sin((m if n < 7 else -m)*theta) * mask"),
 ]
+MUTANTS["C12"] = [
+    ("compose_index0", "lentil/zernike.py", "opd += coeff * zernike(mask, index[0]+1, normalize, rho, theta)", "opd += coeff * zernike(mask, index[0]+1 if index[0] < 5 else index[0]+2, normalize, rho, theta)"),
+    ("fit_sorted_modes", "lentil/zernike.py", "    basis = zernike_basis(mask, modes, True, normalize, rho, theta)\n\n    basis = np.linalg.pinv(basis)", "    basis = zernike_basis(mask, np.sort(modes), True, normalize, rho, theta)\n\n    basis = np.linalg.pinv(basis)"),
+    ("remove_compose_1k", "lentil/zernike.py", "    basis = zernike_basis(mask, modes, rho=rho, theta=theta)\n    fit_opd", "    basis = zernike_basis(mask, np.arange(1, np.size(modes)+1), rho=rho, theta=theta)\n    fit_opd"),
+    ("remove_default_coords", "lentil/zernike.py", "    coeffs = zernike_fit(opd, mask, modes, rho=rho, theta=theta)", "    coeffs = zernike_fit(opd, mask, modes)"),
+    ("fit_ignores_normalize", "lentil/zernike.py", "    basis = zernike_basis(mask, modes, True, normalize, rho, theta)\n\n    basis = np.linalg.pinv(basis)", "    basis = zernike_basis(mask, modes, True, True, rho, theta)\n\n    basis = np.linalg.pinv(basis)"),
+    ("basis_custom_theta_dropped", "lentil/zernike.py", "        basis[index] = zernike(mask, mode, normalize, rho, theta)", "        basis[index] = zernike(mask, mode, normalize, rho, theta if rho is None else np.abs(theta))"),
+]
